@@ -45,11 +45,12 @@ const lockLifeRing = "client/locklife/storage-sym"
 type gatedBackend struct {
 	inner    backendAPI.Backend
 	armed    atomic.Bool // the next Put reports `reached` and waits for `proceed`
+	armedGet atomic.Bool // the same for the next Get (a reader held inside its shared section)
 	reached  chan struct{}
 	proceed  chan struct{}
-	entered  atomic.Int32 // Lock() calls started
-	acquired atomic.Int32 // Lock() calls that returned successfully
-	inCS     atomic.Bool  // between a successful Lock() and Unlock()
+	entered  atomic.Int32 // Lock() / RLock() calls started
+	acquired atomic.Int32 // Lock() / RLock() calls that returned successfully
+	inCS     atomic.Bool  // between a successful Lock() / RLock() and Unlock() / RUnlock()
 	// hooks of the separate-process variant (locklife_procs.go): signal through files instead of channels
 	onGate    func()
 	onEnter   func()
@@ -71,10 +72,33 @@ func (b *gatedBackend) Lock() error {
 	}
 	return err
 }
-func (b *gatedBackend) Unlock() error  { b.inCS.Store(false); return b.inner.Unlock() }
-func (b *gatedBackend) RLock() error   { return b.inner.RLock() }
-func (b *gatedBackend) RUnlock() error { return b.inner.RUnlock() }
-func (b *gatedBackend) Get(path string) ([]byte, error) { return b.inner.Get(path) }
+func (b *gatedBackend) Unlock() error { b.inCS.Store(false); return b.inner.Unlock() }
+func (b *gatedBackend) RLock() error {
+	b.entered.Add(1)
+	if b.onEnter != nil {
+		b.onEnter()
+	}
+	err := b.inner.RLock()
+	if err == nil {
+		b.inCS.Store(true)
+		b.acquired.Add(1)
+		if b.onAcquire != nil {
+			b.onAcquire()
+		}
+	}
+	return err
+}
+func (b *gatedBackend) RUnlock() error { b.inCS.Store(false); return b.inner.RUnlock() }
+func (b *gatedBackend) Get(path string) ([]byte, error) {
+	if b.armedGet.CompareAndSwap(true, false) {
+		close(b.reached)
+		if b.onGate != nil {
+			b.onGate()
+		}
+		<-b.proceed
+	}
+	return b.inner.Get(path)
+}
 func (b *gatedBackend) Put(path string, data []byte) error {
 	if b.armed.CompareAndSwap(true, false) {
 		close(b.reached)
@@ -286,15 +310,31 @@ func runLockLife(hist, sa, ua string, maxWait time.Duration) lifeResult {
 	if !ok {
 		return fail("ring before the race unreadable")
 	}
-	w.register(dS, material(dS))
-	w.register(dU, material(dU))
+	// data 0 = a reader (OpenKeyRing: RLock, Get, RUnlock); otherwise AddKey of that key
+	op := func(h *lifeHandle, ring api.MutableKeyRing, d int) error {
+		if d == 0 {
+			_, err := h.ks.OpenKeyRing(lockLifeRing)
+			return err
+		}
+		_, err := ring.AddKey(symDescription(material(d)))
+		return err
+	}
+	for _, d := range []int{dS, dU} {
+		if d != 0 {
+			w.register(d, material(d))
+		}
+	}
 
-	// --- the race: s is held between its Get and its Put
+	// --- the race: s is held inside its locked section (a writer between its Get and its Put, a reader before its Get)
 	res := lifeResult{}
 	hS.be.reached, hS.be.proceed = make(chan struct{}), make(chan struct{})
-	hS.be.armed.Store(true)
+	if dS == 0 {
+		hS.be.armedGet.Store(true)
+	} else {
+		hS.be.armed.Store(true)
+	}
 	sDone, uDone := make(chan error, 1), make(chan error, 1)
-	go func() { _, err := ringS.AddKey(symDescription(material(dS))); sDone <- err }()
+	go func() { sDone <- op(hS, ringS, dS) }()
 	var sErr, uErr error
 	sFinished := false
 	select {
@@ -305,7 +345,7 @@ func runLockLife(hist, sa, ua string, maxWait time.Duration) lifeResult {
 		return lifeResult{out: "timeout s"}
 	}
 	uAcq0, uEnt0 := hU.be.acquired.Load(), hU.be.entered.Load()
-	go func() { _, err := ringU.AddKey(symDescription(material(dU))); uDone <- err }()
+	go func() { uDone <- op(hU, ringU, dU) }()
 	overlap := false
 	uFinished := false
 	if !sFinished {
@@ -399,9 +439,11 @@ func init() {
 // ---------- generator + oracle ----------
 
 type lifeCase struct {
-	hist  []string
-	s, u  int
-	procs bool // every handle in its own OS process (locklife_procs.go)
+	hist   []string
+	s, u   int
+	procs  bool // every handle in its own OS process (locklife_procs.go)
+	sReads bool // s is a reader (held before its Get under the shared lock) instead of a writer
+	uReads bool
 }
 
 func (c lifeCase) line() string {
@@ -413,7 +455,14 @@ func (c lifeCase) line() string {
 	if c.procs {
 		op = "C17.locklifeP"
 	}
-	return fmt.Sprintf("%s %s %d.90 %d.91", op, h, c.s, c.u)
+	dS, dU := 90, 91
+	if c.sReads {
+		dS = 0
+	}
+	if c.uReads {
+		dU = 0
+	}
+	return fmt.Sprintf("%s %s %d.%d %d.%d", op, h, c.s, dS, c.u, dU)
 }
 
 // genLifeCase: a random history of opens / closes / read cycles / writes that leaves at least two handles open,
@@ -453,6 +502,16 @@ func genLifeCase(rd *core.Rand) lifeCase {
 		j++
 	}
 	c.s, c.u = open[i], open[j]
+	// mostly two writers; also writer vs reader, reader vs writer, and two readers (who MAY overlap)
+	switch x := rd.Intn(100); {
+	case x < 55:
+	case x < 75:
+		c.uReads = true
+	case x < 95:
+		c.sReads = true
+	default:
+		c.sReads, c.uReads = true, true
+	}
 	return c
 }
 
@@ -469,6 +528,11 @@ func lifeCorpus() []lifeCase {
 		{hist: []string{"o", "w0.20", "c0", "o", "p"}, s: 1, u: 2},
 		// plain: two handles, nothing closed
 		{hist: []string{"o", "o"}, s: 0, u: 1},
+		// shared vs exclusive after a handle was closed: a reader must wait for the writer, a writer for the reader;
+		// two readers share the lock
+		{hist: []string{"o", "w0.20", "o", "c1", "o"}, s: 0, u: 2, uReads: true},
+		{hist: []string{"o", "w0.20", "o", "c1", "o"}, s: 0, u: 2, sReads: true},
+		{hist: []string{"o", "w0.20", "o", "c1", "o"}, s: 2, u: 0, sReads: true, uReads: true},
 	}
 }
 
@@ -484,8 +548,18 @@ func judgeLockLife(r *core.Run, c lifeCase, out string) {
 		}
 		panic("harness: C17.locklife: " + out + " on " + c.line())
 	}
-	r.Check(f[4] == "overlap=0", "lockfile-exclusion",
-		desc(fmt.Sprintf("two handles of ONE key directory were inside their exclusive sections at the same time: handle %d took the store lock (Lock returned) while handle %d was held between the Get and the Put of its AddKey", c.u, c.s)))
+	kind := func(reads bool) string {
+		if reads {
+			return "reader (shared lock, held before its Get)"
+		}
+		return "writer (exclusive lock, held between the Get and the Put of its AddKey)"
+	}
+	if c.sReads && c.uReads {
+		// two shared locks are compatible: nothing to demand of `overlap`
+	} else {
+		r.Check(f[4] == "overlap=0", "lockfile-exclusion",
+			desc(fmt.Sprintf("two handles of ONE key directory were inside conflicting locked sections at the same time: handle %d (%s) got the store lock while handle %d, a %s, was held inside its section", c.u, map[bool]string{true: "reader", false: "writer"}[c.uReads], c.s, kind(c.sReads))))
+	}
 	if f[9] == "UNVERIFIED" {
 		r.Fail("partial-read", desc("the final ring does not verify"))
 		return
@@ -506,9 +580,14 @@ func judgeLockLife(r *core.Run, c lifeCase, out string) {
 		last = seq
 	}
 	for i, who := range []struct {
-		name string
-		data string
-	}{{"S", "90"}, {"U", "91"}} {
+		name  string
+		data  string
+		reads bool
+	}{{"S", "90", c.sReads}, {"U", "91", c.uReads}} {
+		if who.reads {
+			r.Check(f[6+i] == "1", "partial-read", desc(fmt.Sprintf("reader %s could not read the ring (it exists; a ring that does not verify is a partial or foreign write)", who.name)))
+			continue
+		}
 		if f[6+i] == "1" {
 			r.Check(count[who.data] == 1, "lockfile-lost-update",
 				desc(fmt.Sprintf("the AddKey of writer %s (handle %d) reported success but its key appears %d times in the final ring", who.name, []int{c.s, c.u}[i], count[who.data])))
@@ -562,6 +641,7 @@ func runLockLifeCases(r *core.Run, rd *core.Rand) {
 		if closes > 0 {
 			tags = append(tags, "locklife:handle-closed-before-race")
 		}
+		tags = append(tags, "locklife:race-"+map[bool]string{false: "writer", true: "reader"}[c.sReads]+"-held-vs-"+map[bool]string{false: "writer", true: "reader"}[c.uReads])
 		r.Begin(fmt.Sprintf("locklife:%s#%d", line, i), true, tags...)
 		lastLife = lifeResult{}
 		out := r.Do(line) // implementation (recorded for the replay) and model
